@@ -228,16 +228,19 @@ macro_rules! impl_dual_num {
                     )
                     .into_any());
                 }
-                if let Ok(mut r) = rhs.extract::<PyReadwriteArrayDyn<PyObject>>() {
+                if let Ok(r) = rhs.extract::<PyReadonlyArrayDyn<PyObject>>() {
                     // check data type of all elements (any number of dimensions, also empty arrays)
                     if r.as_array()
                         .iter()
                         .all(|ri| ri.bind(rhs.py()).is_instance_of::<Self>())
                     {
-                        r.as_array_mut().map_inplace(|ri| {
-                            *ri = Py::new(rhs.py(), Self(self.0.clone() + ri.extract::<Self>(rhs.py()).unwrap().0)).unwrap().into_any()
-                        });
-                        return Ok(r.as_any().clone());
+                        return Ok(PyArray::from_owned_object_array(
+                            rhs.py(),
+                            r.as_array().map(|ri| {
+                                Py::new(rhs.py(), Self(self.0.clone() + ri.extract::<Self>(rhs.py()).unwrap().0)).unwrap()
+                            }),
+                        )
+                        .into_any());
                     } else {
                         return Err(PyErr::new::<PyTypeError, _>(format!(
                             "Operation with the provided object type is not implemented. Supported data types are 'float', 'int' and '{}'.",
@@ -272,16 +275,19 @@ macro_rules! impl_dual_num {
                     )
                     .into_any());
                 }
-                if let Ok(mut r) = rhs.extract::<PyReadwriteArrayDyn<PyObject>>() {
+                if let Ok(r) = rhs.extract::<PyReadonlyArrayDyn<PyObject>>() {
                     // check data type of all elements (any number of dimensions, also empty arrays)
                     if r.as_array()
                         .iter()
                         .all(|ri| ri.bind(rhs.py()).is_instance_of::<Self>())
                     {
-                        r.as_array_mut().map_inplace(|ri| {
-                            *ri = Py::new(rhs.py(), Self(self.0.clone() - ri.extract::<Self>(rhs.py()).unwrap().0)).unwrap().into_any()
-                        });
-                        return Ok(r.as_any().clone());
+                        return Ok(PyArray::from_owned_object_array(
+                            rhs.py(),
+                            r.as_array().map(|ri| {
+                                Py::new(rhs.py(), Self(self.0.clone() - ri.extract::<Self>(rhs.py()).unwrap().0)).unwrap()
+                            }),
+                        )
+                        .into_any());
                     } else {
                         return Err(PyErr::new::<PyTypeError, _>(format!(
                             "Operation with the provided object type is not implemented. Supported data types are 'float', 'int' and '{}'.",
@@ -316,16 +322,19 @@ macro_rules! impl_dual_num {
                     )
                     .into_any());
                 }
-                if let Ok(mut r) = rhs.extract::<PyReadwriteArrayDyn<PyObject>>() {
+                if let Ok(r) = rhs.extract::<PyReadonlyArrayDyn<PyObject>>() {
                     // check data type of all elements (any number of dimensions, also empty arrays)
                     if r.as_array()
                         .iter()
                         .all(|ri| ri.bind(rhs.py()).is_instance_of::<Self>())
                     {
-                        r.as_array_mut().map_inplace(|ri| {
-                            *ri = Py::new(rhs.py(), Self(self.0.clone() * ri.extract::<Self>(rhs.py()).unwrap().0)).unwrap().into_any()
-                        });
-                        return Ok(r.as_any().clone());
+                        return Ok(PyArray::from_owned_object_array(
+                            rhs.py(),
+                            r.as_array().map(|ri| {
+                                Py::new(rhs.py(), Self(self.0.clone() * ri.extract::<Self>(rhs.py()).unwrap().0)).unwrap()
+                            }),
+                        )
+                        .into_any());
                     } else {
                         return Err(PyErr::new::<PyTypeError, _>(format!(
                             "Operation with the provided object type is not implemented. Supported data types are 'float', 'int' and '{}'.",
@@ -360,16 +369,19 @@ macro_rules! impl_dual_num {
                     )
                     .into_any());
                 }
-                if let Ok(mut r) = rhs.extract::<PyReadwriteArrayDyn<PyObject>>() {
+                if let Ok(r) = rhs.extract::<PyReadonlyArrayDyn<PyObject>>() {
                     // check data type of all elements (any number of dimensions, also empty arrays)
                     if r.as_array()
                         .iter()
                         .all(|ri| ri.bind(rhs.py()).is_instance_of::<Self>())
                     {
-                        r.as_array_mut().map_inplace(|ri| {
-                            *ri = Py::new(rhs.py(), Self(self.0.clone() / ri.extract::<Self>(rhs.py()).unwrap().0)).unwrap().into_any()
-                        });
-                        return Ok(r.as_any().clone());
+                        return Ok(PyArray::from_owned_object_array(
+                            rhs.py(),
+                            r.as_array().map(|ri| {
+                                Py::new(rhs.py(), Self(self.0.clone() / ri.extract::<Self>(rhs.py()).unwrap().0)).unwrap()
+                            }),
+                        )
+                        .into_any());
                     } else {
                         return Err(PyErr::new::<PyTypeError, _>(format!(
                             "Operation with the provided object type is not implemented. Supported data types are 'float', 'int' and '{}'.",
